@@ -182,6 +182,9 @@ def first_forms(t, xs):
     if t[0] == "call" and t[1] == "std::iter::Iterator::skip" and len(t[2]) == 2 and t[2][1] == lit_int(1) \
             and t[2][0] in (("call", "core::slice::iter", (xs,)), ("call", "std::iter::IntoIterator::into_iter", (xs,))):
         return ("rest",)
+    # `[first, others @ ..]`: `others.iter()` is the same "remaining entries"
+    if t == ("call", "core::slice::iter", (("call", "std::ops::Index::index", (xs, ("adt", "RangeFrom", "RangeFrom", (("start", lit_int(1)),)))),)):
+        return ("rest",)
     if t[0] == "quant" and t[1] == "all" and t[2] in (("call", "core::slice::iter", (xs,)), ("call", "std::iter::IntoIterator::into_iter", (xs,))) \
             and t[3][0] == "eq":
         # "every entry (the first one included) equals the first": the first equals itself, so this is about the remaining ones
